@@ -27,7 +27,7 @@ func init() {
 		ID: "C12",
 		Explanation: "All-paths decision of the structural clauses of C12 (DESIGN.md section 4, C12): (R1) check-then-act: between entering Plans.Start and registering/launching the plan there is a point only one of two concurrent callers can pass (a lock held across the waiter lookup, Read, validation and registration, or an insert-if-absent whose result is branched on) — its absence is a sound refutation; (R2) validateStartState rejects a zero maxSubmit, a zero or stale SubmitTime and runs the four registered validators over every object, validateState requires NotStarted and zero times; (R3) the API layer contains no panic/Fatal/Exit site other than the enumerated storage-write-failure sites, and no close() of a channel obtained from a map lookup whose ok result is ignored; (R4) exported Workstream methods nil-check pointer parameters before first use; (R5) library calls that panic on a non-positive argument (time.NewTicker) are reached only with an argument established positive; (R6) the Status iterator tests every yield result and stops at once (continuing after the consumer stopped panics the runtime). R2 also decides that each public option forwards to the internal option of the same name and that it sets the field it is named after.",
 		NotDecided:  []string{"exactly-once under real races beyond the necessary condition", "arbitrary API call histories"},
-		Assumptions: []string{"ShardedMap Get/Set/Del are individually atomic but not jointly", "time.NewTicker panics for d <= 0"},
+		Assumptions: []string{"ShardedMap Get/Set/Del are individually atomic but not jointly", "time.NewTicker panics for d <= 0", "storage.*.Read answers (nil, err) or (plan, nil): the plan that comes with a non-nil error is nil"},
 		Rules:       rulesC12,
 	})
 }
